@@ -443,7 +443,7 @@ impl TraitEnv {
 
         let constr = match receiver_ty {
             tast::Ty::TEnum { name } | tast::Ty::TStruct { name } => Some(name.clone()),
-            tast::Ty::TApp { ty, .. } => Some(ty.get_constr_name_unsafe()),
+            tast::Ty::TApp { ty, .. } => ty.try_constr_name(),
             _ => None,
         };
         if let Some(constr) = constr
